@@ -69,6 +69,7 @@ vars == <<nb, canAccept, perIpLimit, perIp, tracks, stale, slab, backlog, queue,
 
 ---------------------------------------------------------------------------
 Slots == Clusters \X Ips
+NoScript == <<>>          \* for `Script <- NoScript` in configs (a .cfg cannot spell a tuple)
 NoSess == [stage |-> "none", sock |-> 0, bufs |-> 0, backs |-> {}]
 Live(t) == sess[t].stage # "none"
 LiveToks == {t \in Toks : Live(t)}
@@ -325,7 +326,8 @@ ZombieSweep(t) == Close(t, "zombie")
 
 SetPerIpLimit(n) ==
   /\ cs.pc = "idle"
-  /\ n \in Limits /\ n # perIpLimit
+  /\ n \in Limits
+  /\ n # perIpLimit \/ n = 0       \* 0 wipes the tables even when the limit already is 0; n -> n otherwise changes nothing
   /\ perIpLimit' = n
   /\ IF n = 0
      THEN /\ perIp' = [x \in Slots |-> 0]            \* clear_cluster_ip_tracking
@@ -337,9 +339,9 @@ SetPerIpLimit(n) ==
   /\ Rec([op |-> "SetPerIpLimit", n |-> n])
 
 ---------------------------------------------------------------------------
-Init ==
+InitWith(limit) ==
   /\ nb = 0 /\ canAccept = TRUE
-  /\ perIpLimit \in Limits
+  /\ perIpLimit = limit
   /\ perIp = [x \in Slots |-> 0]
   /\ tracks = [t \in Toks |-> {}]
   /\ stale = {}
@@ -350,6 +352,7 @@ Init ==
   /\ conns = [c \in Clusters |-> 0]
   /\ served = {}
   /\ hist = <<>>
+Init == \E l \in Limits : InitWith(l)
 
 \* the slab hands out the lowest free key here; which key is irrelevant
 FreeTok == CHOOSE t \in Toks : ~Live(t) /\ \A u \in Toks : ~Live(u) => t <= u
